@@ -45,6 +45,14 @@ def gen(chk):
         if rng.random() < 0.2:
             cmds += ["r"]
         cases.append(G.case(next(cid), scr, st, fl, sv, ",".join(cmds)))
+    # exec supplying the hashed item of a P2SH-shaped script that was loaded on an empty stack (the saved P2SH stack is empty at the switch)
+    import hashlib
+    for item in (b"\x01", b"\x51", b"abc"):
+        h = hashlib.new("ripemd160", hashlib.sha256(item).digest()).digest()
+        scr = bytes([0xa9, 20]) + h + b"\x87"
+        for fl in (G.FLAG("P2SH"), G.STANDARD(), 0):
+            cases.append(G.case(next(cid), scr, [], fl, 0, "e:" + tok_hex("0x" + item.hex()) + ",s,s,s,s,s"))
+            cases.append(G.case(next(cid), scr, [item], fl, 0, "s,s,s,s,s"))
     return {"exec": cases}
 
 def nontrivial(c, il):
